@@ -35,7 +35,7 @@ var ssoDims = []dim{
 	{"emptycond", []string{"no", "yes"}},
 	{"protobinding", []string{"absent", "post", "redirect", "artifact", "other"}},
 	{"acsurl", []string{"absent", "foreign", "prefix-foreign"}},
-	{"embedded", []string{"none", "valid", "valid-nokeyinfo", "valid-foreignkeyinfo", "tampered", "foreign-key", "empty-value", "keyinfo-nox509", "valid-wrappedcert"}},
+	{"embedded", []string{"none", "valid", "valid-nokeyinfo", "valid-foreignkeyinfo", "tampered", "foreign-key", "empty-value", "keyinfo-nox509", "valid-wrappedcert", "wrapped-inner"}},
 	{"style", []string{"0", "1", "2", "3"}},
 	{"escstyle", []string{"go", "lowerhex", "pct20"}},
 	{"reqsigned", []string{"absent", "false", "0", "true", "1"}},
@@ -344,6 +344,23 @@ func runSso(c Case) *SsoRun {
 	case "tampered":
 		xmlDoc, err = cachedEnveloped(xmlDoc, spKeys, embAlg, true, "")
 		xmlDoc = strings.Replace(xmlDoc, "id-4711", "id-4712", 1)
+		f.EmbSigPresent, f.EmbSigValid = true, false
+	case "wrapped-inner":
+		// signature wrapping: a forged outer request (other ID) carries the genuinely signed request inside an Extensions
+		// element together with a copy of its ds:Signature as its own child
+		var signedInner string
+		signedInner, err = cachedEnveloped(xmlDoc, spKeys, embAlg, true, "")
+		if err == nil {
+			inner := strings.TrimPrefix(signedInner, `<?xml version="1.0" encoding="UTF-8"?>`)
+			sigStart := strings.Index(inner, "<ds:Signature")
+			sigEnd := strings.Index(inner, "</ds:Signature>")
+			outer := doc
+			outer.ID = "id-forged-outer"
+			if sigStart >= 0 && sigEnd > sigStart {
+				outer.Extra = inner[sigStart:sigEnd+len("</ds:Signature>")] + `<samlp:Extensions xmlns:samlp="` + nsProtocol + `">` + inner + `</samlp:Extensions>`
+			}
+			xmlDoc = outer.XML()
+		}
 		f.EmbSigPresent, f.EmbSigValid = true, false
 	case "foreign-key":
 		xmlDoc, err = cachedEnveloped(xmlDoc, foreignKeys, embAlg, true, "")
